@@ -23,6 +23,8 @@ def run(ctx):
     d_range(ctx, fn)
     e_primitives(ctx, fn)
     c_identity(ctx, t, fn)
+    c_internal_name(ctx, t)
+    c_class_agreement(ctx, t)
     a_list_scan(ctx, fn)
     d_priority(ctx, t)
 
@@ -284,6 +286,90 @@ def c_identity(ctx, t, argfn):
         ok = ok and "ref_event.flow.uid" in s and s.count("!= 1.0") == 2
         ctx.check("C04.c.identity", SM, unit, "flow instance before arguments", ok,
                   "for internal events the flow_id and the source flow instance (ref_event.flow.uid) are compared, returning 0.0, before arguments are scored", line=a.line)
+
+
+def c_internal_name(ctx, t):
+    """Internal events (FlowStarted/FlowFinished/FlowFailed of one flow are all offered to a head waiting on any of them): a positive score requires
+    equal names.  On every path from a positive argument score to a positive result the name test must be taken."""
+    fn = find_function(t, "_compute_event_comparison_score")
+    cfg = CFG(fn)
+    internal_scoring = [n for n in cfg.nodes if n.kind == "stmt" and isinstance(n.ast, ast.Assign) and isinstance(n.ast.value, ast.Call)
+                        and any(isinstance(p, ast.If) and "InternalEvents.ALL" in src(p.test) and any(b is n.ast or any(x is n.ast for x in ast.walk(b)) for b in p.body)
+                                for p in _anc(n.ast, fn))
+                        and src(n.ast.targets[0]) == "match_score"]
+    if not internal_scoring:
+        raise AnalysisError("argument scoring of internal events not found", anchor=SM + "::_compute_event_comparison_score::internal")
+    name_tests = [n for n in cfg.nodes if n.kind == "test" and n.ast is not None and isinstance(n.ast, ast.Compare) and len(n.ast.ops) == 1
+                  and isinstance(n.ast.ops[0], (ast.NotEq, ast.Eq)) and {re.sub(r"\s", "", src(n.ast.left)), re.sub(r"\s", "", src(n.ast.comparators[0]))} == {"ref_event.name", "event.name"}]
+    # elif-chains: the test node of `elif ref_event.name != event.name` is keyed by the compare itself
+    def nonpositive_return(n):
+        a = n.ast
+        return isinstance(a, ast.Return) and isinstance(a.value, (ast.Constant, ast.UnaryOp)) and (
+            (isinstance(a.value, ast.Constant) and isinstance(a.value.value, (int, float)) and a.value.value <= 0) or
+            (isinstance(a.value, ast.UnaryOp) and isinstance(a.value.op, ast.USub)))
+    for sc in internal_scoring:
+        # walk forward from the scoring, never through a name test; reaching the function exit by anything but a non-positive constant return is a leak
+        seen = set()
+        stack = [m for m, _ in sc.succ]
+        leak = None
+        while stack and leak is None:
+            n = stack.pop()
+            if n in seen or n in name_tests:
+                continue
+            seen.add(n)
+            if n.ast is not None and isinstance(n.ast, ast.Return):
+                if not nonpositive_return(n):
+                    leak = n
+                continue
+            if n is cfg.exit:
+                leak = n
+                continue
+            if n.kind == "test" and re.sub(r"\s", "", src(n.ast)) in ("match_score>0.0", "match_score>0"):
+                # only a positive argument score can become a positive result
+                stack.extend(m for m, lab in n.succ if lab is True)
+                continue
+            stack.extend(m for m, _ in n.succ)
+        ok = leak is None and bool(name_tests)
+        ctx.check("C04.c.identity", SM, fn.name, "internal events: name test on every positive path", ok,
+                  "every path from the argument score of an internal event to a positive result passes `ref_event.name != event.name => 0.0` (or ends in a mismatch/zero return)" if ok else
+                  "a path from the argument score of an internal event reaches a positive result (line %s) without comparing the event names: a head waiting for FlowStarted advances on the FlowFinished/FlowFailed of the same flow"
+                  % (getattr(leak.ast, "lineno", "?") if leak is not None and leak.ast is not None else "end"), line=sc.line)
+
+
+def c_class_agreement(ctx, t):
+    """An expected bare event and a received external event are compared only if they are of the same class (isinstance gate).  Both sides decide
+    'is this an action event?' from the NAME; the two predicates must be the same."""
+    def norm_guard(test, subject_hint):
+        # resolve a one-line helper predicate
+        e = test
+        if isinstance(e, ast.Call) and isinstance(e.func, ast.Name) and len(e.args) == 1:
+            h = find_function(t, e.func.id)
+            if h is not None and len([x for x in h.body if not (isinstance(x, ast.Expr) and isinstance(x.value, ast.Constant))]) == 1:
+                body = [x for x in h.body if not (isinstance(x, ast.Expr) and isinstance(x.value, ast.Constant))][0]
+                if isinstance(body, ast.Return):
+                    txt = src(body.value)
+                    return re.sub(r"\b%s\b" % h.args.args[0].arg, "NAME", re.sub(r"\s", "", txt))
+            return re.sub(r"\s", "", src(e.func)) + "(NAME)"
+        txt = re.sub(r"\s", "", src(e))
+        for subj in subject_hint:
+            txt = txt.replace(subj, "NAME")
+        return txt
+    recv = exp = None
+    for fn in functions(t):
+        for i in [x for x in ast.walk(fn) if isinstance(x, ast.If)]:
+            body_src = "".join(src(b) for b in i.body)
+            if "ActionEvent.from_umim_event(" in body_src and recv is None and "from_umim_event" in "".join(src(b) for b in i.orelse):
+                recv = (fn, i, norm_guard(i.test, ['external_event["type"]', "external_event['type']"]))
+            if fn.name == "get_event_from_element" and re.search(r"\bActionEvent\(", body_src) and "element_spec.name" in src(i.test) and exp is None \
+                    and "members" not in src(i.test) and isinstance(i.test, (ast.Compare, ast.Call, ast.BoolOp)):
+                exp = (fn, i, norm_guard(i.test, ["element_spec.name"]))
+    if recv is None or exp is None:
+        raise AnalysisError("action-event classification sites not found (received: %s, expected: %s)" % (recv is not None, exp is not None), anchor=SM + "::action-event classification")
+    ok = recv[2] == exp[2]
+    ctx.check("C04.c.class-agreement", SM, exp[0].name, first_line(exp[1].test, 70), ok,
+              "expected and received events are classified as action events by the same name predicate `%s`" % exp[2] if ok else
+              "the expected side classifies by `%s` but received events by `%s` (%s): for a name on which they differ the classes differ, the isinstance gate returns 0.0 and the match never completes"
+              % (exp[2], recv[2], recv[0].name), line=exp[1].lineno)
 
 
 def _anc(node, stop):
